@@ -824,7 +824,10 @@ impl MapKeys {
                 to_remove.push(replaced);
             }
         }
-        for &r in &to_remove {
+        // Renumber from the highest removed row down, whatever order the rows were replaced in
+        let mut descending = to_remove.clone();
+        descending.sort_unstable_by(|a, b| b.cmp(a));
+        for &r in &descending {
             for i in &mut self.indices {
                 if *i > r {
                     *i -= 1;
